@@ -693,7 +693,7 @@ def case_uc(ctx, c):
                   witness=dict(summary, index=list(idx), row=row, reported=uc[row], expected=exp, intensity=inten), coords=coords)
 
 
-FAMILIES = {"mat": (case_mat, 1920, 16 * 5000), "chunk": (case_chunk, 320, 16 * 1200), "uc": (case_uc, 240, 16 * 800)}
+FAMILIES = {"mat": (case_mat, 3840, 16 * 4000), "chunk": (case_chunk, 640, 16 * 1000), "uc": (case_uc, 480, 16 * 640)}
 
 
 def run_shard(ctx):
